@@ -361,7 +361,8 @@ func build(rng *rand.Rand) ([]byte, string) {
 		}
 		tag += "|" + kind
 	case "symlink-then-dir", "symlink-then-file", "symlink-then-device":
-		target := []string{"/outside", "../../../outside", "/outside/sentinel", "/", "/outside/dev13", "../../../outside/dev13"}[rng.Intn(6)]
+		// (the last two: dangling links to names that do not exist yet, outside)
+		target := []string{"/outside", "../../../outside", "/outside/sentinel", "/", "/outside/dev13", "../../../outside/dev13", "/outside/not-there-yet", "../../../outside/sub/not-there-yet"}[rng.Intn(8)]
 		e.filename("a")
 		e.entry(mLnk)
 		e.symlink(target)
@@ -396,7 +397,7 @@ func build(rng *rand.Rand) ([]byte, string) {
 		e.goodbye()
 	case "preexisting":
 		// the destination already holds: link-dir -> /outside, link-file -> /outside/sentinel, link-rel -> ../../sentinel-dir
-		ln := []string{"link-dir", "link-file", "link-rel", "link-up", "link-dev", "hl-file", "hl-file"}[rng.Intn(7)]
+		ln := []string{"link-dir", "link-file", "link-rel", "link-up", "link-dev", "hl-file", "hl-file", "link-dangling", "link-dangling"}[rng.Intn(9)]
 		e.filename(ln)
 		switch rng.Intn(3) {
 		case 0:
@@ -508,6 +509,7 @@ func prepareJail(jail string, dstState string) {
 	syscall.Mknod(filepath.Join(jail, "outside/dev13"), syscall.S_IFCHR|0666, 1<<8|3)
 	os.Chmod(filepath.Join(jail, "outside/dev13"), 0666)
 	os.Symlink("/outside/dev13", filepath.Join(jail, "p/q/dst/link-dev"))
+	os.Symlink("/outside/not-there-yet", filepath.Join(jail, "p/q/dst/link-dangling"))
 	// a regular file in the destination that is a second (hard) link to a file outside, as snapshot trees made with
 	// cp -al / rsync --link-dest have: rewriting it in place rewrites the outside file
 	os.WriteFile(filepath.Join(jail, "outside/hl-target"), []byte("shared inode\n"), 0666)
